@@ -101,6 +101,7 @@ fn gen_all(rng: &mut Rng, tier: Tier, n: usize) -> Vec<String> {
     // the timing cases always come first
     let mut v: Vec<String> = refill_cases();
     v.extend(seq_cases());
+    v.extend(spurious_cases(&["flush", "send"]));
     v.extend(gen_blocking(rng, tier, n, &["flush", "send"]));
     v
 }
@@ -135,12 +136,25 @@ fn slow_cases() -> Vec<String> {
 }
 fn gen_flush(rng: &mut Rng, tier: Tier, n: usize) -> Vec<String> {
     let mut v = seq_cases();
+    v.extend(spurious_cases(&["flush"]));
     v.extend(gen_blocking(rng, tier, n, &["flush"]));
     v
 }
 fn gen_send(rng: &mut Rng, tier: Tier, n: usize) -> Vec<String> {
     let mut v = refill_cases();
+    v.extend(spurious_cases(&["send"]));
     v.extend(gen_blocking(rng, tier, n, &["send"]));
+    v
+}
+/// blocked callers woken spuriously (RX = spurious): calls that genuinely wait (something pending / a full queue in
+/// front of a stalled receiver) with a timeout long enough to tell T from 1.7·T
+fn spurious_cases(ops: &[&str]) -> Vec<String> {
+    let mut v = Vec::new();
+    for (api, ctx) in [("sync", "plain"), ("tokio", "plain"), ("tokio", "mt")] {
+        for op in ops {
+            v.push(format!("(bl {} {} {} spurious 1 1 600)", api, op, ctx));
+        }
+    }
     v
 }
 
@@ -193,6 +207,10 @@ struct Case {
     api: Api,
     op: OpK,
     ctx: Ctx,
+    /// RX = spurious: a stalled receiver, and the blocked caller is woken WITHOUT its condition having been signalled
+    /// (hook H7 `emit_batcher::verif::wake_blocked_callers_spuriously`, what the OS may do at any time) at 0.45·T and
+    /// 0.7·T: the call must still give up at ≈ T, not start a new full wait at every wakeup
+    spurious: bool,
     rx: Rx,
     cap: usize,
     prefill: usize,
@@ -241,9 +259,10 @@ fn parse(line: &str) -> Option<Case> {
             "ctnd" => Ctx::CtNoDrivers,
             _ => return None,
         },
+        spurious: a[3].as_atom()? == "spurious",
         rx: match a[3].as_atom()? {
             "live" => Rx::Live,
-            "stalled" => Rx::Stalled,
+            "stalled" | "spurious" => Rx::Stalled,
             "gone" => Rx::Gone,
             "late" => Rx::Late,
             "refill" => Rx::Refill,
@@ -749,6 +768,9 @@ fn run_blocking_inner(line: &str) -> String {
         return "bad-case".into();
     }
     if c.api == Api::Async {
+        if c.spurious {
+            return "bad-case".into();
+        }
         return run_async(&c);
     }
     if c.rx == Rx::Hangup {
@@ -792,6 +814,19 @@ fn run_blocking_inner(line: &str) -> String {
     } else {
         Arc::new(std::sync::atomic::AtomicBool::new(false))
     };
+    if c.spurious {
+        if c.timeout < Duration::from_millis(300) || c.timeout > Duration::from_millis(5000) {
+            return "bad-case".into();
+        }
+        let t = c.timeout;
+        std::thread::spawn(move || {
+            let t0 = Instant::now();
+            for f in [0.45, 0.7] {
+                std::thread::sleep(t.mul_f64(f).saturating_sub(t0.elapsed()));
+                emit_batcher::verif::wake_blocked_callers_spuriously();
+            }
+        });
+    }
     let before = counters(&sender);
     let started = Instant::now();
     let out = {
@@ -876,6 +911,10 @@ fn run_blocking_inner(line: &str) -> String {
         fails.push("c08-panic");
     }
     if wall > timeout.saturating_add(SLACK) || (c.rx == Rx::Late && wall > LATE + SLACK) {
+        fails.push("c08-timeout");
+    }
+    // HEAD gives up at ≈ T; a wait loop that re-arms the full timeout after a wakeup at 0.7·T returns at ≈ 1.7·T
+    if c.spurious && wall > timeout.mul_f64(1.35) && !fails.contains(&"c08-timeout") {
         fails.push("c08-timeout");
     }
     if out == Out::Flush(true) && c.rx == Rx::Stalled && c.prefill > 0 {
